@@ -7,10 +7,11 @@ import CimbaModel.Sim.S3Hold
 import CimbaModel.Sim.S3PInvCor
 import CimbaModel.Sim.S3All
 import CimbaModel.Sim.S3Built
+import CimbaModel.Sim.S5Pattern
 
 namespace CimbaModel.Props.C04
 open CimbaModel CimbaModel.Sim CimbaModel.Event CimbaModel.Generated CimbaModel.KPQ
-open CimbaModel.Sim.S3
+open CimbaModel.Sim.S3 CimbaModel.Sim.S5
 open CimbaModel.HashHeap (HTag HH WF abs init_spec)
 
 /-- a timer (and hence a hold, which is a timer with the success code) armed for `d ≥ 0` is a pending event at
@@ -304,6 +305,68 @@ example : ∃ w : World, InitOk w ∧ w.ev.pending ≠ [] ∧ w.procs.size = 2 :
   · intro e he
     simp only [pushEv_pending, List.mem_cons, List.not_mem_nil, or_false] at he
     subst he; decide
+
+/-! ### pattern cancel of the user events: `cmb_event_pattern_cancel(user_action, ANY, ANY)` = command `cancelUserAll`
+
+The library cancels every match through `cmb_event_cancel`, so the waiters (`cmb_process_wait_event`) of every cancelled
+event are notified with CANCELLED exactly as by a cancel by handle.  The order in which the matches are cancelled (heap
+array order in the library, pending-list order in the model) is left open by the header; nothing below depends on it
+except the order of the new handles in `new_events_subjects` (Sim/S5Pattern.lean). -/
+
+/-- `pattern_cancel_wakes_waiters`: after `cancelUserAll`, executed by any process `p` in any state satisfying the kernel
+    invariant (handles unique, nothing pending in the past):
+    (1) no user event is pending;
+    (2) the old events that are left are exactly the old events that were not user events, in their old order;
+    (3) every new event (handle beyond the old counter) is the wake-up of a process registered as a waiter of one of the
+        cancelled user events: action aEvent, CANCELLED, at the current time, with that process's own priority —
+        nobody else gets one;
+    (4) the number of new events addressed to a process `q` is the number of its registrations with cancelled events
+        (`pattern_cancel_exactly_one`: in a reachable state that is exactly one for every waiter);
+    (5) the registrations with the cancelled events are gone, all others are untouched;
+    (6) the clock and the process table are unchanged;
+    (7) the command returns the number of user events that were pending. -/
+theorem pattern_cancel_wakes_waiters (w : World) (p : Pid) (hi : EvInv w.ev) :
+    (∀ e ∈ (execCmd w p .cancelUserAll).1.ev.pending, e.item.a ≠ aUser) ∧
+    (execCmd w p .cancelUserAll).1.ev.pending.filter (fun e => decide (e.key ≤ w.ev.counter)) =
+      w.ev.pending.filter (fun e => decide (e.item.a ≠ aUser)) ∧
+    (∀ e ∈ (execCmd w p .cancelUserAll).1.ev.pending, w.ev.counter < e.key →
+      ∃ h ∈ userPending w, ∃ q ∈ (w.evWaiters.lookup h).getD [],
+        e = mkEv e.key aEvent (q + 1) sigCancelled w.now (w.proc q).prio) ∧
+    (∀ q, ((execCmd w p .cancelUserAll).1.ev.pending.filter
+        (fun e => decide (w.ev.counter < e.key) && decide (e.item.b = q + 1))).length = (cancelledWaiters w).count q) ∧
+    (execCmd w p .cancelUserAll).1.evWaiters = w.evWaiters.filter (fun x => decide (x.1 ∉ userPending w)) ∧
+    (execCmd w p .cancelUserAll).1.now = w.now ∧ (execCmd w p .cancelUserAll).1.procs = w.procs ∧
+    (match (execCmd w p .cancelUserAll).2 with
+      | .ret v extra => v = ((w.ev.pending.filter fun e => decide (e.item.a = aUser)).length : Int) ∧ extra = ""
+      | _ => False) := by
+  have hx : execCmd w p .cancelUserAll = ((cancelUserAll w).1, .ret (cancelUserAll w).2 "") := rfl
+  obtain ⟨_, hw, _, hnow, hprocs, hcnt⟩ := cancelUserAll_closed w hi
+  rw [hx]
+  refine ⟨(cancelUserAll_spec w hi).2.1, old_events w hi, fun e he hk => new_event_is_wake w hi he hk,
+    fun q => new_events_count w hi q, hw, hnow, hprocs, ?_⟩
+  show ((cancelUserAll w).2 : Int) = _ ∧ "" = ""
+  rw [hcnt]; exact ⟨rfl, rfl⟩
+
+/-- in a reachable state (`PInvB`: a process is registered with at most one event, once) every process that was waiting
+    for one of the cancelled user events has exactly one new wake-up pending — by (3) above it is (aEvent, CANCELLED), at
+    the current time, with its own priority — and nobody else has any -/
+theorem pattern_cancel_exactly_one {w : World} (hp : PInvB w) (p q : Pid) :
+    ((execCmd w p .cancelUserAll).1.ev.pending.filter
+        (fun e => decide (w.ev.counter < e.key) && decide (e.item.b = q + 1))).length =
+      if ∃ h ∈ userPending w, q ∈ (w.evWaiters.lookup h).getD [] then 1 else 0 := by
+  rw [(pattern_cancel_wakes_waiters w p hp.ei).2.2.2.1 q]
+  exact cancelledWaiters_count hp q
+
+/- non-vacuity: the hypothesis holds in `patternWorld`; both user events are cancelled (the command returns 2), process 0
+   and process 1 each get one (aEvent, CANCELLED) wake-up at the current time with their own priority, process 2 gets
+   none, no registration is left -/
+example : EvInv patternWorld.ev ∧ userPending patternWorld = [2, 1] ∧
+    ((execCmd patternWorld 2 .cancelUserAll).1.ev.pending.map fun e => (e.key, e.item.a, e.item.b, decSig e.item.c, e.d, e.i)) =
+      [(4, aEvent, 1, sigCancelled, 0, 1), (3, aEvent, 2, sigCancelled, 0, 2)] ∧
+    (execCmd patternWorld 2 .cancelUserAll).1.evWaiters = [] ∧
+    (match (execCmd patternWorld 2 .cancelUserAll).2 with | .ret v _ => v = 2 | _ => False) := by
+  refine ⟨?_, by decide, by decide, by decide, (by show ((cancelUserAll patternWorld).2 : Int) = 2; decide)⟩
+  exact pushEv_evinv _ _ _ _ _ (by decide) (pushEv_evinv _ _ _ _ _ (by decide) (Event.init_inv 0))
 
 /-! ### TimerInv (I_timers): an invariant of every reachable state, for all programs
 
